@@ -1,6 +1,8 @@
 package generic
 
 import (
+	"math"
+
 	vrt "github.com/cloudwego/dynamicgo/internal/zzverif"
 	"github.com/cloudwego/dynamicgo/thrift"
 )
@@ -176,4 +178,241 @@ func VerifC01_MapKey() {
 	}
 	vrt.Assert(node.Field(1).IsError(), "C01.map.field.wrongkind")
 	vrt.Assert(node.Index(0).IsError(), "C01.map.index.wrongkind")
+}
+
+func init() {
+	vrt.Register("VerifC01_Interface", VerifC01_Interface)
+	vrt.Register("VerifC01_Iterate", VerifC01_Iterate)
+}
+
+// verifIfaceEq compares the Go value produced by Interface() with the reference decoding of b (type t).
+func verifIfaceEq(v interface{}, b []byte, t byte, opts *Options, depth int) bool {
+	if depth < 0 {
+		return false
+	}
+	switch t {
+	case vrt.TBOOL:
+		x, ok := v.(bool)
+		if b[0] > 1 {
+			// the binary protocol encodes bool as 0 or 1; other bytes are not produced by any encoder
+			return ok
+		}
+		return ok && x == (b[0] != 0)
+	case vrt.TBYTE:
+		x, ok := v.(int)
+		return ok && x == int(b[0])
+	case vrt.TI16:
+		x, ok := v.(int)
+		return ok && x == int(int16(vrt.BE16(b, 0)))
+	case vrt.TI32:
+		x, ok := v.(int)
+		return ok && x == vrt.BE32(b, 0)
+	case vrt.TI64:
+		x, ok := v.(int)
+		return ok && x == int(vrt.BE64(b, 0))
+	case vrt.TDOUBLE:
+		x, ok := v.(float64)
+		return ok && math.Float64bits(x) == uint64(vrt.BE64(b, 0))
+	case vrt.TSTRING:
+		if opts.CastStringAsBinary {
+			x, ok := v.([]byte)
+			return ok && vrt.BytesEq(x, 0, len(x), b, 4, len(b))
+		}
+		x, ok := v.(string)
+		if !ok || len(x) != len(b)-4 {
+			return false
+		}
+		for i := 0; i < len(x); i++ {
+			if x[i] != b[4+i] {
+				return false
+			}
+		}
+		return true
+	case vrt.TLIST, vrt.TSET:
+		x, ok := v.([]interface{})
+		kids, ok2 := vrt.TChildren(b, t, depth)
+		if !ok || !ok2 || len(x) != len(kids) {
+			return false
+		}
+		for i := range kids {
+			if !verifIfaceEq(x[i], b[kids[i].Start:kids[i].End], kids[i].Typ, opts, depth-1) {
+				return false
+			}
+		}
+		return true
+	case vrt.TSTRUCT:
+		kids, ok2 := vrt.TChildren(b, t, depth)
+		if !ok2 {
+			return false
+		}
+		if opts.MapStructById {
+			x, ok := v.(map[thrift.FieldID]interface{})
+			if !ok || len(x) != len(kids) {
+				return false
+			}
+			for i := range kids {
+				e, has := x[thrift.FieldID(kids[i].ID)]
+				if !has || !verifIfaceEq(e, b[kids[i].Start:kids[i].End], kids[i].Typ, opts, depth-1) {
+					return false
+				}
+			}
+			return true
+		}
+		x, ok := v.(map[int]interface{})
+		if !ok || len(x) != len(kids) {
+			return false
+		}
+		for i := range kids {
+			e, has := x[kids[i].ID]
+			if !has || !verifIfaceEq(e, b[kids[i].Start:kids[i].End], kids[i].Typ, opts, depth-1) {
+				return false
+			}
+		}
+		return true
+	case vrt.TMAP:
+		kids, ok2 := vrt.TChildren(b, t, depth)
+		if !ok2 {
+			return false
+		}
+		kt := b[0]
+		switch {
+		case kt == vrt.TSTRING:
+			x, ok := v.(map[string]interface{})
+			if !ok || len(x) != len(kids) {
+				return false
+			}
+			for i := range kids {
+				e, has := x[string(b[kids[i].KStart+4:kids[i].KEnd])]
+				if !has || !verifIfaceEq(e, b[kids[i].Start:kids[i].End], kids[i].Typ, opts, depth-1) {
+					return false
+				}
+			}
+			return true
+		case kt == vrt.TBYTE || kt == vrt.TI16 || kt == vrt.TI32 || kt == vrt.TI64:
+			x, ok := v.(map[int]interface{})
+			if !ok || len(x) != len(kids) {
+				return false
+			}
+			for i := range kids {
+				var kv int
+				switch kt {
+				case vrt.TBYTE:
+					kv = int(b[kids[i].KStart])
+				case vrt.TI16:
+					kv = int(int16(vrt.BE16(b, kids[i].KStart)))
+				case vrt.TI32:
+					kv = vrt.BE32(b, kids[i].KStart)
+				default:
+					kv = int(vrt.BE64(b, kids[i].KStart))
+				}
+				e, has := x[kv]
+				if !has || !verifIfaceEq(e, b[kids[i].Start:kids[i].End], kids[i].Typ, opts, depth-1) {
+					return false
+				}
+			}
+			return true
+		default:
+			x, ok := v.(map[interface{}]interface{})
+			if !ok || len(x) != len(kids) {
+				return false
+			}
+			// keys are bool/double values or pointers to container values: match each reference
+			// entry with some Go entry whose key and value both decode equal
+			for i := range kids {
+				found := false
+				for gk, gv := range x {
+					if verifKeyEq(gk, b[kids[i].KStart:kids[i].KEnd], kt, opts, depth-1) &&
+						verifIfaceEq(gv, b[kids[i].Start:kids[i].End], kids[i].Typ, opts, depth-1) {
+						found = true
+					}
+				}
+				if !found {
+					return false
+				}
+			}
+			return true
+		}
+	}
+	return false
+}
+
+// verifKeyEq: map keys of container type are stored as pointers to the decoded Go value.
+func verifKeyEq(k interface{}, b []byte, t byte, opts *Options, depth int) bool {
+	switch x := k.(type) {
+	case *map[string]interface{}:
+		return verifIfaceEq(*x, b, t, opts, depth)
+	case *map[int]interface{}:
+		return verifIfaceEq(*x, b, t, opts, depth)
+	case *map[interface{}]interface{}:
+		return verifIfaceEq(*x, b, t, opts, depth)
+	case *[]interface{}:
+		return verifIfaceEq(*x, b, t, opts, depth)
+	case *map[thrift.FieldID]interface{}:
+		return verifIfaceEq(*x, b, t, opts, depth)
+	}
+	return verifIfaceEq(k, b, t, opts, depth)
+}
+
+// VerifC01_Interface: conversion to Go values of every well-formed value of type T and N bytes,
+// for every polarity of MapStructById / CastStringAsBinary.
+func VerifC01_Interface() {
+	n := vrt.Param("N")
+	t := byte(vrt.Param("T"))
+	b := vrt.Bytes(n)
+	vrt.Assume(vrt.TWellFormed(b, t, verifDepth))
+	kids, _ := vrt.TChildren(b, t, verifDepth)
+	if t == vrt.TSTRUCT {
+		verifDistinctIDs(kids)
+	}
+	if t == vrt.TMAP {
+		for i := range kids {
+			for j := 0; j < i; j++ {
+				vrt.Assume(!vrt.BytesEq(b, kids[i].KStart, kids[i].KEnd, b, kids[j].KStart, kids[j].KEnd))
+			}
+		}
+	}
+	opts := &Options{MapStructById: vrt.Param("BYID") != 0, CastStringAsBinary: vrt.Param("BIN") != 0}
+	v, err := NewNode(thrift.Type(t), b).Interface(opts)
+	vrt.Assert(err == nil, "C01.interface.noerror")
+	if err != nil {
+		return
+	}
+	vrt.Reach("converted")
+	vrt.Assert(verifIfaceEq(v, b, t, opts, verifDepth), "C01.interface.value")
+}
+
+// VerifC01_Iterate: Foreach / Children / Len visit exactly the reference children in wire order.
+func VerifC01_Iterate() {
+	n := vrt.Param("N")
+	t := byte(vrt.Param("T"))
+	b := vrt.Bytes(n)
+	kids, ok := vrt.TChildren(b, t, verifDepth)
+	vrt.Assume(ok)
+	node := NewNode(thrift.Type(t), b)
+	var out []PathNode
+	err := node.Children(&out, false, &Options{})
+	vrt.Assert(err == nil, "C01.children.noerror")
+	if err != nil {
+		return
+	}
+	vrt.Assert(len(out) == len(kids), "C01.children.count")
+	if len(out) != len(kids) {
+		return
+	}
+	vrt.Reach("children")
+	for i := range kids {
+		c := out[i]
+		vrt.Assert(byte(c.Node.Type()) == kids[i].Typ, "C01.children.type")
+		vrt.Assert(vrt.SameSpan(c.Node.Raw(), b, kids[i].Start, kids[i].End), "C01.children.span")
+		switch t {
+		case vrt.TSTRUCT:
+			vrt.Assert(c.Path.Type() == PathFieldId && int(c.Path.Id()) == kids[i].ID, "C01.children.path.id")
+		case vrt.TLIST, vrt.TSET:
+			vrt.Assert(c.Path.Type() == PathIndex && c.Path.Int() == i, "C01.children.path.index")
+		}
+	}
+	if t != vrt.TSTRUCT {
+		l, err := node.Len()
+		vrt.Assert(err == nil && l == len(kids), "C01.len")
+	}
 }
